@@ -235,6 +235,11 @@ func (t *FnTrans) mergeStates(preds []*ssa.BasicBlock, conds []string, b *ssa.Ba
 			}
 		}
 	}
+	var gens []string
+	for _, p := range preds {
+		gens = append(gens, t.blkOut[p].Gen)
+	}
+	out.Gen = t.mergeGen(conds, gens)
 	comps := map[string]bool{}
 	for _, p := range preds {
 		for c := range t.blkOut[p].H {
@@ -247,7 +252,7 @@ func (t *FnTrans) mergeStates(preds []*ssa.BasicBlock, conds []string, b *ssa.Ba
 		for _, p := range preds {
 			v, ok := t.blkOut[p].H[c]
 			if !ok {
-				v = t.entryVersion(c)
+				v = t.genVersion(c, t.blkOut[p].Gen)
 			}
 			terms = append(terms, v)
 			if v != terms[0] {
@@ -459,6 +464,7 @@ func (t *FnTrans) loopHead(b *ssa.BasicBlock, l *loopInfo) {
 		for c := range t.compSort {
 			t.cur.H[c] = t.freshVersion(c, "@L")
 		}
+		t.havocRest()
 		t.abstr["loop-havoc-all"] = true
 	} else {
 		for c := range l.writes {
@@ -501,6 +507,20 @@ func (t *FnTrans) loopHead(b *ssa.BasicBlock, l *loopInfo) {
 					}
 				}
 				if !has {
+					if u, isU := v.(*ssa.UnOp); isU && u.Op == token.MUL {
+						// re-load of a variable cell that lives outside the loop and is not written by it
+						_, isFV := u.X.(*ssa.FreeVar)
+						al, isAl := u.X.(*ssa.Alloc)
+						if isFV || (isAl && al.Block() != nil && !l.body[al.Block()]) {
+							if _, known := t.vals[u.X]; known || isFV {
+								if cp := t.ptrOf(u.X); cp != nil && cp.Comp != "" && !l.writes[cp.Comp] {
+									val, has = Val{S: t.load(cp)}, true
+								}
+							}
+						}
+					}
+				}
+				if !has {
 					if _, isC := v.(*ssa.Const); !isC {
 						if _, isP := v.(*ssa.Parameter); !isP {
 							ok = false
@@ -525,6 +545,9 @@ func (t *FnTrans) loopHead(b *ssa.BasicBlock, l *loopInfo) {
 					ok = false
 					break
 				}
+				if ve.kind == "elems" {
+					term = app("s.base", term)
+				}
 				conds = append(conds, not(eq("lf$r", term)))
 			}
 			if !ok {
@@ -532,7 +555,7 @@ func (t *FnTrans) loopHead(b *ssa.BasicBlock, l *loopInfo) {
 			}
 			preTerm, has := pre.H[c]
 			if !has {
-				preTerm = t.entryVersion(c)
+				preTerm = t.genVersion(c, pre.Gen)
 			}
 			// objects allocated inside the loop are unconstrained; everything that existed before the loop and is
 			// not one of the written bases keeps its content
@@ -1054,6 +1077,7 @@ func (t *FnTrans) instr(in ssa.Instruction) {
 		t.panicInstr(x)
 	case *ssa.Send:
 		t.abstr["chan-send"] = true
+		t.ghostAt("before send") // ghost statements attached to channel sends of this function
 	case *ssa.Select:
 		t.selectInstr(x)
 	case *ssa.SliceToArrayPointer:
@@ -1196,6 +1220,20 @@ func (t *FnTrans) reloadTerm(v ssa.Value, l *loopInfo) (string, bool) {
 	u, ok := v.(*ssa.UnOp)
 	if !ok {
 		return "", false
+	}
+	if u.Op == token.MUL {
+		// re-load of a variable cell that lives outside the loop (captured variable, local declared before the loop)
+		// and is not written by it
+		_, isFV := u.X.(*ssa.FreeVar)
+		al, isAl := u.X.(*ssa.Alloc)
+		if isFV || (isAl && al.Block() != nil && !l.body[al.Block()]) {
+			if _, known := t.vals[u.X]; known || isFV {
+				if cp := t.ptrOf(u.X); cp != nil && cp.Comp != "" && !l.writes[cp.Comp] {
+					return t.load(cp), true
+				}
+			}
+			return "", false
+		}
 	}
 	fa, ok := u.X.(*ssa.FieldAddr)
 	if !ok {
